@@ -51,6 +51,8 @@ type program struct {
 	next   int
 	direct bool         // the transaction calls the precompile itself (root = one pre node, sender = env.direct)
 	create map[int]bool // call nodes that are CREATE instructions: Body = init code, To = address of the new contract
+	child2 map[int]common.Address // round 5: CREATE2 node id -> the salted address (a pruned copy of the program has its own)
+	salt   map[int]*big.Int // round 5: the CREATE nodes that are CREATE2 instructions, with their salt (To = the salted address)
 	body   func(depth int, ctx common.Address, static bool) []*evmx.Node
 	depth  int // depth of the frame being generated (for genPre)
 	// round 4: CREATE nodes in RANDOM programs
@@ -98,6 +100,12 @@ func (e *env) isPoolCtx(a common.Address) bool {
 func (e *env) attachGen(rng *rand.Rand, p *program) {
 	if p.create == nil {
 		p.create = map[int]bool{}
+	}
+	if p.salt == nil {
+		p.salt = map[int]*big.Int{}
+	}
+	if p.child2 == nil {
+		p.child2 = map[int]common.Address{}
 	}
 	p.created, p.creators = map[common.Address]bool{}, map[common.Address]bool{}
 	var gen func(depth int, ctx common.Address, static bool) []*evmx.Node
@@ -167,6 +175,28 @@ func (e *env) attachGen(rng *rand.Rand, p *program) {
 				p.creators[ctx], p.created[child] = true, true
 				nd.Body = gen(depth+1, child, false)
 				e.cnt("random-constructor")
+				// round 5: half of them through CREATE2 — the address is keccak(0xff ++ creator ++ salt ++ keccak(init code)), known
+				// only once the constructor body is finished: the body is generated for a provisional account and re-targeted
+				if rng.Intn(2) == 0 {
+					sl := big.NewInt(int64(rng.Intn(1 << 30)))
+					if rng.Intn(4) == 0 {
+						sl = new(big.Int).Sub(new(big.Int).Lsh(big.NewInt(1), 256), big.NewInt(int64(1+rng.Intn(9)))) // 32-byte salt
+					}
+					p.salt[id] = sl
+					c2 := create2Address(ctx, sl, assembleX(nd.Body, p.create, p.salt))
+					p.retarget(nd.Body, child, c2)
+					if create2Address(ctx, sl, assembleX(nd.Body, p.create, p.salt)) == c2 {
+						delete(p.created, child)
+						p.created[c2] = true
+						nd.To = c2
+						p.child2[id] = c2
+						e.cnt("random-constructor-create2")
+					} else {
+						p.retarget(nd.Body, c2, child)
+						delete(p.salt, id)
+						e.cnt("random-constructor-create2-self-referential")
+					}
+				}
 			case r < 85 && depth < 3 && len(p.addrs) < nPool:
 				nd.Op = "call"
 				nd.Kind = evmx.Kind([]int{0, 0, 0, 0, 0, 0, 0, 1, 2, 3}[rng.Intn(10)])
@@ -226,7 +256,7 @@ func (e *env) attachGen(rng *rand.Rand, p *program) {
 // directly (uncaught; the gas sweep cuts inside the native action) and once inside a frame that reverts after the call
 // and is caught by its caller; late-failing variants inside a caught frame.  Built by rejection sampling on the same
 // argument generator, so they stay in step with it.
-var directedVariants = []string{"delegateV2", "undelegateV2", "redelegateV2", "withdraw", "approveShares", "approveShares/zero-existing", "transferShares", "transferFromShares",
+var directedVariants = []string{"delegateV2", "undelegateV2", "redelegateV2", "withdraw", "approveShares", "approveShares/zero-existing", "transferShares", "transferFromShares", "transferFromShares/exact-allowance",
 	"crossChain/origin", "crossChain/wfx", "crossChain/tst", "crossChain/hook-token", "cancelSendToExternal", "increaseBridgeFee/origin",
 	"increaseBridgeFee/wfx", "bridgeCall/value", "bridgeCall/no-value", "bridgeCall/no-value+wfx", "bridgeCall/no-value+tst", "bridgeCall/no-value+wfx+tst",
 	"bridgeCall/value+tst", "executeClaim", "delegationRewards", "delegation", "allowanceShares", "slashingInfo", "validatorList", "bridgeCoinAmount",
@@ -486,12 +516,30 @@ func (e *env) genPre(rng *rand.Rand, p *program, nd *evmx.Node, ctx common.Addre
 			val, from = e.vals[0], e.owner2.Address()
 			amt = func(k int64) *big.Int { return new(big.Int).Mul(big.NewInt(2), big.NewInt(1e18)) }
 			variant = m + "/late-insufficient-shares"
+		} else if pi, isPool := e.poolIdx[ctx]; mode == "ok" && isPool && rng.Intn(4) == 0 {
+			// round 5, boundary: the transfer spends the grant to the LAST share (allowance = amount); a second one by the same
+			// caller succeeds iff the first was dropped (the grant is a resource consumed by kept calls only)
+			from = e.owner3.Address()
+			amt = func(k int64) *big.Int { return big.NewInt(exactAllow) }
+			variant = m + "/exact-allowance"
+			mode = fmt.Sprintf("use:%d", resAllow+pi)
 		}
 		data, err = sabi.Pack(m, val, from, e.sink, amt(10))
 	case "delegation", "delegationRewards":
 		data, err = sabi.Pack(m, val, ctx)
 	case "allowanceShares":
-		data, err = sabi.Pack(m, val, e.owner.Address(), ctx)
+		// round 5: also the view of a grant that an EARLIER call of the same transaction may have spent to the last share
+		// (owner3 -> this contract) or revoked (this contract -> sink): a record that exists with the value zero
+		switch _, isPool := e.poolIdx[ctx]; {
+		case isPool && rng.Intn(3) == 0:
+			data, err = sabi.Pack(m, val, e.owner3.Address(), ctx)
+			variant = m + "/exact-grant"
+		case rng.Intn(3) == 0:
+			data, err = sabi.Pack(m, val, ctx, e.sink)
+			variant = m + "/grant-to-sink"
+		default:
+			data, err = sabi.Pack(m, val, e.owner.Address(), ctx)
+		}
 	case "slashingInfo":
 		data, err = sabi.Pack(m, val)
 	case "validatorList":
